@@ -11,7 +11,7 @@ def probe_rules(n):
     return [ExternRule("Probe%d" % i, ["vfrt", "vfu", "probe_%d" % i]) for i in range(n)]
 
 
-NFAM = 10
+NFAM = 11
 
 
 def fam(index):
@@ -81,6 +81,23 @@ def fam(index):
         g = Grammar([s, s2, tight, loose, word, num] + probe_rules(2))
         ins = ["foo bar", "foobar", "foo  bar", "foo bar!", "foo bar?", "foo 12", "foo12", "foo 12!", "foo\t12?", " foo bar", "foo bar ", "foo\nbar!", "a b", "a 1", "", "foo"]
         return g, {"Ss": ins, "Rev": ins}, []
+    if k == 10:
+        # memoized rules pulled in with `>`: the body is pasted under the includer's settings, the included rule's directives
+        # (its own skip mode, its checks, its cache) have no effect there - with or without @memoize on it
+        num = Rule("Num", Cho([Seq([Clo(Cho([Seq([Rng("0", "9")])]), True)])]), ["string", "no_skip_ws"])
+        word = Rule("Word", Cho([Seq([Clo(Cho([Seq([Rng("a", "z")])]), True)])]), ["string", "no_skip_ws"])
+        ver = Rule("Version", Cho([Seq([Ref("Probe0"), Ref("Num", "major"), L("."), Ref("Num", "minor")])]), ["memoize", "no_skip_ws"])
+        tag = Rule("Tagged", Cho([Seq([Ref("Probe1"), Ref("Word", "t"), Opt(Cho([Seq([L("#"), Ref("Num", "n")])]))])]), ["memoize", ("check", ["vfrt", "vfu", "chk1"])])
+        loose = Rule("Loose", Cho([Seq([Ref("Probe2"), L("<"), Ref("Word", "w"), L(">")])]), ["memoize"])
+        s = Rule("Ss", Cho([Seq([Ref("Word", "name"), L("="), Inc("Version"), L(";"), Eoi()]),
+                            Seq([Ref("Word", "name"), L("="), Inc("Version"), L("!"), Eoi()]),
+                            Seq([Ref("Word", "name"), L(":"), Inc("Tagged"), Eoi()]),
+                            Seq([Ref("Word", "name"), L(":"), Inc("Tagged"), L("!"), Eoi()])]), ["export"])
+        s2 = Rule("Tight", Cho([Seq([L("["), Inc("Loose"), L("]")]), Seq([L("["), Inc("Loose"), L(")")])]), ["export", "no_skip_ws"])
+        g = Grammar([s, s2, ver, tag, loose, num, word] + probe_rules(3))
+        ins = ["a = 1 . 2;", "a=1.2;", "a = 1.2 !", "a = 12 . 345;", "a = 1 .2", "k : foo", "k : foo # 7", "k:bar#12!", "k : zz !", "q : memo", "x = 1", ""]
+        ins2 = ["[<ab>]", "[< ab >]", "[<ab>)", "[ <ab>]", "[<a b>]", "[<x> ]"]
+        return g, {"Ss": ins, "Tight": ins2}, []
     if k == 0:
         # nested brackets, three alternatives sharing the prefix '(' A
         a = Rule("Aa", Cho([Seq([Ref("Probe0"), Grp(Cho([
